@@ -120,7 +120,7 @@ def run(ctx):
                  sample={"smiles": s[:160], "variant": (s_variant or "")[:160], "selfies": x[:200]} if nb else None)
         return x
 
-    n = 2000 if quick else 20000
+    n = 2000 if quick else 80000
     recent = []
     for i in range(n):
         if i % 50 == 0:
